@@ -52,18 +52,18 @@ func runC09(c *Ctx) {
 				if n != "(net/http.Header).Set" && n != "(net/http.Header).Add" {
 					return
 				}
-				k, ok := ConstString(x.Call.Args[1])
-				if !ok || canonicalHeaderKey(k) != canonUID || !hdrIs(x.Call.Args[0]) {
+				k, ok := ConstString(PArgs(&x.Call)[1])
+				if !ok || canonicalHeaderKey(k) != canonUID || !hdrIs(PArgs(&x.Call)[0]) {
 					return
 				}
-				s := site{i: at, val: valOf(x.Call.Args[2])}
+				s := site{i: at, val: valOf(PArgs(&x.Call)[2])}
 				if n == "(net/http.Header).Set" {
 					s.ok, s.why = true, "Header.Set replaces any client-supplied value"
 				} else {
 					// Add must be dominated by Del of the same key on the same header
 					for _, d := range Calls(fn, "(net/http.Header).Del") {
-						dk, _ := ConstString(CallOf(d).Args[1])
-						if canonicalHeaderKey(dk) == canonUID && hdrIs(CallOf(d).Args[0]) && Dominates(d, i) {
+						dk, _ := ConstString(PArgs(CallOf(d))[1])
+						if canonicalHeaderKey(dk) == canonUID && hdrIs(PArgs(CallOf(d))[0]) && Dominates(d, i) {
 							s.ok, s.why = true, "Header.Del then Header.Add"
 						}
 					}
@@ -104,14 +104,14 @@ func runC09(c *Ctx) {
 		if g == nil || !p.IsModFunc(g) || len(g.Blocks) == 0 {
 			return
 		}
-		for k, a := range cc.Args {
+		for k, a := range PArgs(cc) {
 			if PathOf(a) == reqHdr && k < len(g.Params) {
 				pk := g.Params[k]
 				classifyIn(g, func(v ssa.Value) bool { return rootIs(v, pk) }, func(v ssa.Value) ssa.Value {
 					// map a parameter of the helper back to the call argument
 					for j, gp := range g.Params {
-						if rootIs(v, gp) && j < len(cc.Args) {
-							return cc.Args[j]
+						if rootIs(v, gp) && j < len(PArgs(cc)) {
+							return PArgs(cc)[j]
 						}
 					}
 					return v
@@ -141,8 +141,8 @@ func runC09(c *Ctx) {
 			okv := false
 			if ok {
 				if g := CallResult(v, 0, "(net/http.Header).Get"); g != nil {
-					k, _ := ConstString(g.Call.Args[1])
-					okv = PathOf(g.Call.Args[0]) == P(pf, 2)+".Header" && k == hdrUserID
+					k, _ := ConstString(PArgs(&g.Call)[1])
+					okv = PathOf(PArgs(&g.Call)[0]) == P(pf, 2)+".Header" && k == hdrUserID
 				}
 			}
 			c.Check("C09.V", "parse:user-from-proxy-reply-header", p, as[0].Pos(), okv, "ForwardedRequest.User = proxyResp.Header.Get("+hdrUserID+"): the proxy's assertion, not the embedded client request", "ForwardedRequest.User ("+PathOf(v)+") is not read from the "+hdrUserID+" header of the proxy's reply: a client can assert its own identity")
@@ -153,7 +153,7 @@ func runC09(c *Ctx) {
 	if rh := c.need(p, "C09.V", "app.requestHandler"); rh != nil {
 		ok := false
 		for _, call := range Calls(rh, "(net/http.Header).Add", "(net/http.Header).Set") {
-			a := CallOf(call).Args
+			a := PArgs(CallOf(call))
 			if k, isC := ConstString(a[1]); isC && k == hdrUserID {
 				ok = PathOf(a[2]) == "result0:("+ModPath+"/app/types.Store).ReadRequest.User"
 			}
@@ -210,7 +210,7 @@ func runC09(c *Ctx) {
 			if !IsCall(i, "(net/http.Header).Del") {
 				return false
 			}
-			a := CallOf(i).Args
+			a := PArgs(CallOf(i))
 			k, ok := ConstString(a[1])
 			return ok && canonicalHeaderKey(k) == "Authorization" && PathOf(a[0]) == reqHdr
 		}
@@ -253,7 +253,7 @@ func runC09(c *Ctx) {
 			h := a[len(a)-1]
 			ok := false
 			if call := CallResult(h, 0, ModPath+"/agent/websockets.stripWSHeader"); call != nil {
-				ok = PathOf(call.Call.Args[0]) == P(nc, 2)
+				ok = PathOf(PArgs(&call.Call)[0]) == P(nc, 2)
 			}
 			c.Check("C09.N", "dial:header-is-stripped-request-header", p, d.Pos(), ok, "the websocket handshake carries stripWSHeader(<header passed in>)", "the websocket dial header ("+PathOf(h)+") is not stripWSHeader(header parameter)")
 		}
